@@ -22,7 +22,7 @@ func init() {
 			"(R-OPTGATE) optimize runs, for each element of the optimizations list in order, the optimizer registered under that very option, exactly when the option is enabled or absent from CompileOptions, on its own (config, tree); " +
 			"(R-DIREQ) sibling agreement between the Optimizations option and the ;;;; directive parser: both write CompileOptions[opt] = flag for every element of the optimizations list when the switch-all option is named, and for a single named option only under optimizerMap[opt] != nil — 'set programmatically or by directive comments, which must be equivalent'; " +
 			"plus the per-pass conditions decided under C10 (fold only constants through operators approved as stateless, only on success: R-FOLDGATE, R-FOLDOK, R-FOLDCONST, R-STATELESS), C16 (reordering only permutes and/or operands, stably: R-SORTGATE, R-STABLE, R-LESS) and C01 (fast-operator marking only for operators with exactly two leaf children: R-KIND), re-run here because each is a necessary condition of C02 too. " +
-			"(R-OPRESOLVE) the parser consults Config.OperatorMap only when the built-in table has no entry for the name, and the folder applies builtinOperators[name] for a built-in stateless name: the function folded at compile time is the function the node runs. NOT decided: that the re-derived jump/stack tables of the rewritten tree denote the same evaluation (table values), hence value equality across subsets.",
+			"(R-OPRESOLVE) the parser consults Config.OperatorMap only when the built-in table has no entry for the name, and the folder applies builtinOperators[name] for a built-in stateless name: the function folded at compile time is the function the node runs. (R-CALLSITES, R-FASTORDER, R-STEPRES, R-STEPARGS, R-FASTLAYOUT, R-FASTPROXY, shared with C03/C04) FastEvaluation turns a two-leaf operator into the evaluator's fast arm: that arm fetches each of the two inlined operands itself, once, with that operand's own keys, and hands them to the node's operator in source order, as the plain operator arm does. NOT decided: that the re-derived jump/stack tables of the rewritten tree denote the same evaluation (table values), hence value equality across subsets.",
 		Run:       runC02,
 		Witnesses: c02Witnesses,
 	})
@@ -45,6 +45,15 @@ func runC02(w *World, r *Report) {
 	ruleOrder(w, r)
 	// Compile works on a copy of the Config: what decides a pass (stateless list, options, costs) must survive the copy unshared
 	ruleCopyAll(w, r)
+	// ... and Compile must not write the caller's Config at all: a `;;;;` directive applied to the caller's own option map
+	// changes which passes every later compilation with that Config runs (directive and option stop being equivalent)
+	ruleConfTaint(w, r)
+	// FastEvaluation replaces a two-leaf operator by the evaluator's fast arm: that arm must fetch exactly the two inlined
+	// operands and hand them over in order, as the plain operator arm does for the same nodes (both evaluators)
+	runC03Sites(w, r)
+	ruleStepArgs(w, r, ruleStepRes(w, r, "(*Expr).Eval"))
+	ruleFastLayout(w, r)
+	ruleFastProxy(w, r)
 }
 
 // runC10Core re-runs the folding rules of C10.
